@@ -200,6 +200,19 @@ def analyse(facts):
                             if r.get("k") == "index" and is_self_field(r["e"]) and r["e"]["name"] in cov:
                                 read(r["e"]["name"], sp.Integer(0), take if take is not None else total[r["e"]["name"]], e, "output sum")
                         continue
+            # for n in 0..K { self.X[n] *= &self.filter_f[n] }      (the same multiply written with an index)
+            if len(body) == 1 and body[0]["k"] in ("semi", "expr") and body[0]["e"].get("k") == "opassign" and body[0]["e"]["op"] == "*" and len(names) == 1 \
+                    and it.get("k") == "range" and not it.get("incl") and nbit(it["lo"]) == "i:0":
+                oa = body[0]["e"]
+                rr = oa["r"]
+                while rr.get("k") in ("ref", "paren"):
+                    rr = rr["e"]
+                if oa["l"].get("k") == "index" and is_self_field(oa["l"]["e"]) and oa["l"]["e"]["name"] in cov and is_path(oa["l"]["i"], names[0]) \
+                        and rr.get("k") == "index" and is_self_field(rr["e"]) and is_path(rr["i"], names[0]):
+                    hi = alg.conv(it["hi"])
+                    read(oa["l"]["e"]["name"], sp.Integer(0), hi, e, "multiply by filter spectrum")
+                    scale = {"take": hi, "zipped": "self.%s.iter()" % rr["e"]["name"], "node": e}
+                    continue
             # for (spec, filt) in self.X[..K].iter_mut().zip(self.filter_f.iter()) { *spec *= filt }      (the for_each form written as a loop)
             if len(body) == 1 and body[0]["k"] in ("semi", "expr") and body[0]["e"].get("k") == "opassign" and body[0]["e"]["op"] == "*" and len(names) == 2 \
                     and it.get("k") == "mcall" and it["name"] == "zip":
@@ -216,6 +229,10 @@ def analyse(facts):
                     scale = {"take": hi - base[1], "zipped": show(it["args"][0]), "node": e}
                     continue
             # for ((item, out), over) in wave_out.iter_mut().zip(self.output_buf[..K].iter()).zip(overlap.iter()) { *item = *out + *over }
+            outer_take = None
+            if it.get("k") == "mcall" and it["name"] == "take" and len(it["args"]) == 1 and it["recv"].get("k") == "mcall" and it["recv"]["name"] == "zip":
+                outer_take = alg.conv(it["args"][0])      # .zip(..).zip(..).take(K): K triples
+                it = it["recv"]
             if len(body) == 1 and body[0]["k"] in ("semi", "expr") and body[0]["e"].get("k") == "assign" and it.get("k") == "mcall" and it["name"] == "zip" \
                     and it["recv"].get("k") == "mcall" and it["recv"]["name"] == "zip" and len(names) == 3:
                 def strip_iter(z):
@@ -233,6 +250,9 @@ def analyse(facts):
                     if len(ob_) == 1 and len(ov_) == 1:
                         sr = slice_range(ob_[0], alg, total)
                         take = sr[2] - sr[1]
+                        if outer_take is not None:
+                            take = outer_take
+                            sr = (sr[0], sr[1], sr[1] + outer_take)
                         synth = ir.N("bin", op="+", l=ir.N("index", e=ir.self_field("output_buf"), i=ir.path("n"), ln=0), r=ir.N("index", e=ir.path(overlap), i=ir.path("n"), ln=0), ln=0)
                         out_write = {"take": take, "rhs": synth, "idx": "n", "node": e}
                         read("output_buf", sr[1], sr[2], e, "output sum")
